@@ -7,8 +7,23 @@ import sys
 import time
 
 ROOT = os.path.dirname(os.path.dirname(os.path.abspath(__file__)))
-EVID = os.path.join(ROOT, "evidence")
-REPLAYS = os.path.join(ROOT, "replays")
+# VERIF_OUT: scratch directory for evidence/replays when a seeded change is evaluated in a scratch worktree
+# (tools/wt_run.sh); registered commands never set it, so they write /verif/evidence.
+_OUT = os.environ.get("VERIF_OUT") or ROOT
+EVID = os.path.join(_OUT, "evidence")
+REPLAYS = os.path.join(_OUT, "replays")
+
+
+def repo_root():
+    """directory of the xobjects tree that is actually imported (/repo, or the scratch worktree named by VERIF_REPO)"""
+    import xobjects
+
+    return os.path.dirname(os.path.dirname(os.path.abspath(xobjects.__file__)))
+
+
+def in_repo(filename):
+    return bool(filename) and os.path.abspath(filename).startswith(repo_root() + os.sep)
+
 KNOWN = os.path.join(ROOT, "known_findings.json")
 REPLAY_PY = "/venv/bin/python"
 
@@ -99,7 +114,7 @@ class Report:
             f = getattr(f, "__func__", f)
             src = inspect.getsourcefile(f)
             line = inspect.getsourcelines(f)[1]
-            ent = f"{getattr(f, '__qualname__', getattr(f, '__name__', str(f)))} ({os.path.relpath(src, '/repo') if src and src.startswith('/repo') else src}:{line})"
+            ent = f"{getattr(f, '__qualname__', getattr(f, '__name__', str(f)))} ({os.path.relpath(src, repo_root()) if in_repo(src) else src}:{line})"
         except Exception:
             ent = str(fn)
         if ent not in self.functions:
